@@ -37,7 +37,7 @@ func schedConfig(s *Sched) simrt.Config {
 	if s == nil {
 		return simrt.Config{Seed: 1}
 	}
-	return simrt.Config{Seed: s.Seed, PreemptPPM: s.PreemptPPM, StallPPM: s.StallPPM, Explicit: s.Explicit, Steps: s.Steps}
+	return simrt.Config{Seed: s.Seed, PreemptPPM: s.PreemptPPM, StallPPM: s.StallPPM, HoldMax: s.HoldMax, HotPPM: s.HotPPM, Explicit: s.Explicit, Steps: s.Steps}
 }
 
 // runSim runs body as the root goroutine of a simulated run inside a fresh
@@ -108,6 +108,17 @@ func genSched(r *rng) *Sched {
 		s.PreemptPPM = 150_000
 	default:
 		s.PreemptPPM = 500_000
+	}
+	// a third of the schedules use few but long preemptions: the preempted goroutine is held back for up to
+	// HoldMax scheduler steps, so that whole requests of other clients run inside one small window
+	if s.PreemptPPM > 0 && r.chance(1, 3) {
+		s.HoldMax = []uint32{100, 1000, 10000}[r.intn(3)]
+		if s.PreemptPPM > 30_000 {
+			s.PreemptPPM = []uint32{1_000, 5_000, 30_000}[r.intn(3)]
+		}
+	}
+	if s.PreemptPPM > 0 && r.chance(1, 2) {
+		s.HotPPM = []uint32{100_000, 300_000, 600_000}[r.intn(3)]
 	}
 	return s
 }
